@@ -186,10 +186,10 @@ func neighbours(s *sim.Src, v sq.Val) []sq.Val {
 		}
 		out = append(out, math.Nextafter(x, math.Inf(1)), math.Nextafter(x, math.Inf(-1)))
 	case string:
-		if strings.IndexByte(x, 0) >= 0 {
-			// SQLite's NOCASE stops comparing at an embedded NUL (equal-length strings
-			// that agree up to the NUL are "equal"): outside the property's text, not explored
-			break
+		if i := strings.IndexByte(x, 0); i >= 0 {
+			// SQLite's NOCASE stops comparing at an embedded NUL: texts of equal length that
+			// agree up to the NUL are equal, otherwise the length decides
+			out = append(out, x[:i+1]+"zz", x[:i+1]+"Q", x[:i+1], x+"\x00")
 		}
 		out = append(out, strings.ToUpper(x), strings.ToLower(x), fold.Upper(x), x+" ", x+"  ", x+"\t", x+"\n", strings.TrimRight(x, " "), x+"a", []byte(x))
 		if len(x) > 0 {
